@@ -356,6 +356,7 @@ pub fn run(ctx: &Ctx) -> Report {
      over small trees (single/multi); the written file is decoded by the harness's strict decoder and compared key by key with the request, byte for byte with the model, and re-created twice with \
      --no-creation-date in opposite entry orders; non-trivial = at least two metadata options given; distinct by option hash",
   );
+  report.rule.push_str("; input names with dots, names holding separators, texts with outer white space and control characters, case-only name collisions and empty files in the tree, overwriting an earlier torrent of the same content; the two reproducibility runs live on a memory file system where listing order follows creation order; TZ rotated");
   report.correspondences.push("C05.bytes: bytes written by `imdl torrent create` = encode (createMetainfo options).toBVal".into());
   let cases: Vec<Opts> = match super::replay_cases(ctx) {
     Some(rc) => rc.iter().filter_map(Opts::from_json).collect(),
